@@ -65,22 +65,53 @@ def is_symbolic(v) -> bool:
 _orig_repr = CR.real_repr
 
 
+def _is_canonical_name(name) -> bool:
+    return (name[0] == "c" and name[1:].isdigit()) or (name[0] == "V" and name[-1] == "_" and name[1:-1].isdigit())
+
+
+def canon_name(v):
+    """The token the (stubbed) renderer produces for int value v: the first canonical constant c<k> with an equal
+    value, else the first placeholder with an equal value.  'repr is a function of the value': equal values get
+    equal tokens, different values different tokens - decided by the solver."""
+    for name, val in W.ns.items():
+        if name[0] == "c" and name[1:].isdigit() and isinstance(val, int) and not isinstance(val, bool) and val == v:
+            return name
+    for name, val in W.ph.items():
+        if val is v or val == v:
+            return name
+    return None
+
+
 def sym_repr(v):
     """Stub for inline_snapshot._code_repr.real_repr: symbolic int leaf -> name, everything else real repr.
 
     Contract: the repr of an int leaf is an atom expression that evaluates to that value and whose token is stable."""
     if not is_symbolic(v):
         return _orig_repr(v)
-    for name, val in W.ns.items():
-        if name[0] == "c" and name[1:].isdigit() and isinstance(val, int) and val == v:
-            return name
-    for name, val in W.ph.items():
-        if val is v:
-            return name
+    name = canon_name(v)
+    if name is not None:
+        return name
     name = f"V{W.n}_"
     W.n += 1
     W.ph[name] = v
     return name
+
+
+def canon_tokens(tokens):
+    """Tokens read from the file: a canonical name (c<k> / V<n>_) stands for the literal of its value, so it is
+    mapped to the same representative the renderer would choose for that value."""
+    if W.concrete:
+        return tokens
+    out = []
+    for t in tokens:
+        if t.type == 1 and _is_canonical_name(t.string):
+            ns = W.ns if t.string in W.ns else W.ph
+            if t.string in ns and is_symbolic(ns[t.string]):
+                rep = canon_name(ns[t.string])
+                if rep is not None and rep != t.string:
+                    t = type(t)(t.type, rep)
+        out.append(t)
+    return out
 
 
 _installed = False
@@ -155,8 +186,15 @@ def install_shims():
         w.__name__ = name
         setattr(cls, name, w)
 
-    _nt(SF.SourceFile, "_token_of_node")
     _nt(SF.SourceFile, "asttokens")
+    _ton = SF.SourceFile._token_of_node
+
+    def _token_of_node(self, node):
+        with NoTracing():
+            toks = _ton(self, node)
+        return canon_tokens(toks)
+
+    SF.SourceFile._token_of_node = _token_of_node
 
 
 def reset(ns: Dict[str, Any]):
